@@ -968,23 +968,149 @@ static void register_foreign(MPT_STRUCT(node) *first, int par, int grp)
 		if (nn >= MAXN - 1) return;
 	}
 }
-static int op_parse(vf_rng *r)
+/* sections/options with names that overlap the population's; `bad`:
+ * 1 unclosed section at the end, 2 section end without section, 3 assignment without name */
+static size_t gen_text(vf_rng *r, char *text, size_t max, int bad)
 {
 	static const char *sn[] = { "a", "b", "cc", "dd" };
-	char text[512];
 	size_t tl = 0;
-	int i = pick(r, vf_chance(r, 2, 3) ? p_has_children : 0, 0), cnt = 0, depth = 0;
-	if (i < 0 || alive_count() > LIVE_MAX - 6) return 0;
-	/* sections/options with names that overlap the population's */
-	int items = 1 + (int) vf_below(r, 6);
+	int depth = 0, items = 1 + (int) vf_below(r, 6);
+	if (bad == 2 && vf_chance(r, 1, 2)) { tl += (size_t) snprintf(text + tl, max - tl, "}\n"); bad = 0; }
 	for (int k = 0; k < items; k++) {
 		int what = (int) vf_below(r, 4);
-		if (what == 0 && depth < 2) { tl += (size_t) snprintf(text + tl, sizeof(text) - tl, "%s {\n", sn[vf_below(r, 4)]); depth++; cnt++; }
-		else if (what == 1 && depth) { tl += (size_t) snprintf(text + tl, sizeof(text) - tl, "}\n"); depth--; }
-		else { tl += (size_t) snprintf(text + tl, sizeof(text) - tl, "%s = v%d;\n", sn[vf_below(r, 4)], k); cnt++; }
+		if (what == 0 && depth < 2) { tl += (size_t) snprintf(text + tl, max - tl, "%s {\n", sn[vf_below(r, 4)]); depth++; }
+		else if (what == 1 && depth) { tl += (size_t) snprintf(text + tl, max - tl, "}\n"); depth--; }
+		else { tl += (size_t) snprintf(text + tl, max - tl, "%s = v%d;\n", sn[vf_below(r, 4)], k); }
+		if (bad == 3 && !depth && vf_chance(r, 1, 3)) { tl += (size_t) snprintf(text + tl, max - tl, "= 5;\n"); bad = 0; }
 	}
-	while (depth--) tl += (size_t) snprintf(text + tl, sizeof(text) - tl, "}\n");
-	(void) cnt;
+	while (depth--) tl += (size_t) snprintf(text + tl, max - tl, "}\n");
+	if (bad == 1) tl += (size_t) snprintf(text + tl, max - tl, "%s {\n%s = last;\n", sn[vf_below(r, 4)], sn[vf_below(r, 4)]);
+	if (bad == 2) tl += (size_t) snprintf(text + tl, max - tl, "}\n");
+	if (bad == 3) tl += (size_t) snprintf(text + tl, max - tl, "= 5;\n");
+	return tl;
+}
+static void log_text(const char *what, int i, int had, const char *text, size_t tl)
+{
+	char one[600];
+	size_t k;
+	if (!vf_logging) return;
+	for (k = 0; k < tl && k < sizeof(one) - 1; k++) one[k] = text[k] == '\n' ? '|' : text[k];
+	one[k] = 0;
+	vf_log("%s(%d%s, \"%s\")", what, i, had ? " with children" : "", one);
+}
+/* mpt_node_parse (file front end, replaces the children) in all outcomes and
+ * mpt_parse_node calls that fail: after a refused or failed call the tree is
+ * untouched, after a successful one every old descendant is released once */
+static int op_parse_file(vf_rng *r)
+{
+	static const char *good_limits[] = { 0, "ns", "", "Esnw", "E", "Nns" };
+	static const char *bad_limits[] = { "n?", "x", "ns!", "-", "Es,n" };
+	char text[600], what[64];
+	int outcome = (int) vf_below(r, 10);   /* 0..3 success, 4..6 text error, 7 bad limits, 8 bad format, 9 no file / parse_node failures */
+	int use_parse_node = outcome >= 4 && outcome != 7 && vf_chance(r, 1, 3);
+	int i = pick(r, vf_chance(r, 3, 4) ? p_has_children : 0, 0);
+	if (i < 0) return 0;
+	if (outcome < 4 && alive_count() > LIVE_MAX - 6) outcome = 4 + (int) vf_below(r, 6);
+	int bad = (outcome >= 4 && outcome <= 6) ? outcome - 3 : 0;
+	if (bad == 3 && use_parse_node) bad = 1;   /* the bare parser context admits empty names */
+	size_t tl = gen_text(r, text, sizeof(text), bad);
+	const char *fmt = (outcome == 8) ? (vf_chance(r, 1, 2) ? "{q} =;!#" : "[?] = ") : "{*} =;!#";
+	const char *limits = (outcome == 7) ? bad_limits[vf_below(r, 5)] : good_limits[vf_below(r, 6)];
+	MPT_STRUCT(node) *root = N[i].n;
+	int had = root->children != 0, rc;
+	vf_fp_u64(0xD80 + (uint64_t) outcome * 4 + (uint64_t) use_parse_node);
+	vf_fp(text, tl);
+	snapshot();
+	if (use_parse_node) {
+		struct pin in = { text, 0, tl };
+		MPT_STRUCT(parser_context) ctx = MPT_PARSER_INIT;
+		ctx.src.getc = pin_getc;
+		ctx.src.arg = &in;
+		cur_op = "parse_node";
+		vf_at("mpt_parse_node");
+		vf_count("mpt_parse_node:failing", 1);
+		snprintf(what, sizeof(what), "parse_node[%s]", outcome == 8 ? "bad format" : outcome == 9 ? "bad format" : "text error");
+		log_text(what, i, had, text, tl);
+		if (outcome == 9) fmt = "{q} =;!#";
+		rc = mpt_parse_node(root, &ctx, fmt);
+	} else {
+		FILE *f = (outcome == 9) ? 0 : fmemopen(text, tl, "r");
+		if (outcome != 9 && !f) vf_inconclusive("fmemopen failed");
+		cur_op = "node_parse";
+		vf_at("mpt_node_parse");
+		vf_count("mpt_node_parse", 1);
+		snprintf(what, sizeof(what), "node_parse[%s, limits %s]", outcome < 4 ? "good" : outcome < 7 ? "text error" : outcome == 7 ? "bad limits" : outcome == 8 ? "bad format" : "no file",
+		         limits ? limits : "NULL");
+		log_text(what, i, had, text, tl);
+		rc = mpt_node_parse(root, f, fmt, limits, 0);
+		if (f) fclose(f);
+	}
+	if (outcome >= 4) {
+		static const char *cn[] = { "outcome:parse-text-error", "outcome:parse-text-error", "outcome:parse-text-error", "outcome:parse-bad-limits", "outcome:parse-bad-format", "outcome:parse-no-file" };
+		VF_CHECK(rc < 0, K(cur_op, "accepted-bad-input"), "%s returned %d", what, rc);
+		/* same child list, same links everywhere, nothing released (walker: release count) */
+		check_unchanged(cur_op);
+		vf_count((use_parse_node && outcome == 9) ? "outcome:parse-bad-format" : cn[outcome - 4], 1);
+		if (had) vf_count("state:failed-parse-on-node-with-children", 1);
+		return had ? 2 : 1;
+	}
+	VF_CHECK(rc >= 0, K(cur_op, "refused"), "%s returned %d for well-formed input", what, rc);
+	/* replace semantics: every old descendant is gone */
+	release_subtree(cur_op, i, 0);
+	if (root->children) {
+		if (POISONED(root->children)) vf_fail(K(cur_op, "freed-node-linked"), "children of node %d point to a freed node", i);
+		register_foreign(root->children, i, N[i].grp);
+	}
+	check_structure(cur_op);
+	adopt();
+	vf_count("outcome:node-parse-replaced", 1);
+	if (had) vf_count("state:node-parse-on-node-with-children", 1);
+	return had ? 2 : 1;
+}
+
+/* manual concatenation (the documented use of relink): a detached top-level
+ * list is hooked behind the last child of a node at any depth with a bare
+ * `last->next = head`, then the links are restored from an ancestor */
+static int op_concat(vf_rng *r)
+{
+	int t = pick(r, p_has_children, 0), cand[MAXN], nc = 0, mem[MAXN], nm;
+	if (t < 0) return 0;
+	int root = t;
+	while (N[root].par >= 0) root = N[root].par;
+	for (int j = 0; j < nn; j++) if (N[j].alive && N[j].par < 0 && N[j].grp != N[root].grp) cand[nc++] = j;
+	if (!nc) return 0;
+	MPT_STRUCT(node) *dh = head_of(N[cand[vf_below(r, (uint32_t) nc)]].n), *last = N[t].n->children;
+	nm = list_members(dh, mem);
+	while (last->next) last = last->next;
+	/* ancestor to relink from: the node itself, its parent, grandparent, ... root */
+	int chain[MAXN], cl = 0;
+	for (int j = t; j >= 0; j = N[j].par) chain[cl++] = j;
+	int up = (int) vf_below(r, 4);
+	if (up == 3 || up >= cl) up = cl - 1;
+	int a = chain[up];
+	cur_op = "gnode_relink";
+	vf_at("mpt_gnode_relink");
+	vf_count("mpt_gnode_relink:concat", 1);
+	vf_log("concatenate list of %d (%d members) behind last child %d of node %d, gnode_relink(%d) [%d levels up]", idx_of(dh), nm, idx_of(last), t, a, up);
+	vf_fp_u64(0xAC0 + (uint64_t) up * 64 + (uint64_t) nm);
+	last->next = dh;
+	mpt_gnode_relink(N[a].n);
+	for (int k = 0; k < nm; k++) N[mem[k]].par = t;
+	if (up == 0) vf_count("state:concat-relink-from-parent", 1);
+	else if (up == 1) vf_count("state:concat-relink-from-grandparent", 1);
+	else vf_count("state:concat-relink-from-higher", 1);
+	if (a == root) vf_count("state:concat-relink-from-root", 1);
+	for (int k = 0; k < nm; k++) if (N[mem[k]].n->children) { vf_count("state:concat-members-with-children", 1); break; }
+	return up ? 2 : 1;
+}
+
+static int op_parse(vf_rng *r)
+{
+	char text[512];
+	int i = pick(r, vf_chance(r, 2, 3) ? p_has_children : 0, 0);
+	if (i < 0 || alive_count() > LIVE_MAX - 6) return 0;
+	size_t tl = gen_text(r, text, sizeof(text), 0);
+	int items = (int) tl;
 	struct pin in = { text, 0, tl };
 	MPT_STRUCT(parser_context) ctx = MPT_PARSER_INIT;
 	ctx.src.getc = pin_getc;
@@ -994,13 +1120,7 @@ static int op_parse(vf_rng *r)
 	cur_op = "parse_node";
 	vf_at("mpt_parse_node");
 	vf_count("mpt_parse_node", 1);
-	if (vf_logging) {
-		char one[512];
-		size_t k;
-		for (k = 0; k < tl; k++) one[k] = text[k] == '\n' ? '|' : text[k];
-		one[k] = 0;
-		vf_log("parse_node(%d%s, \"%s\")", i, had ? " with children" : "", one);
-	}
+	log_text("parse_node", i, had, text, tl);
 	vf_fp_u64(0xD00 + (uint64_t) items);
 	vf_fp(text, tl);
 	/* old children may be superseded (destroyed) or kept: which ones is the
@@ -1036,8 +1156,8 @@ static int op_parse(vf_rng *r)
 
 /* ------------------------------------------------------------------ entry */
 enum { ONew, OAfter, OBefore, OGAdd, ONAdd, OGIns, ONIns, OUnlink, ODestroy, OClear, OCloneN, OCloneL, OCloneT,
-       OMove, OSwap, OSwitch, ORelink, ORelinkB, OLocate, ONext, OFind, OPos, OTraverse, OParse, OCount };
-static const uint8_t weights[OCount] = { 10, 5, 5, 8, 8, 12, 9, 5, 5, 2, 2, 4, 5, 8, 3, 5, 2, 2, 3, 2, 3, 2, 4, 3 };
+       OMove, OSwap, OSwitch, ORelink, ORelinkB, OLocate, ONext, OFind, OPos, OTraverse, OParse, OParseF, OConcat, OCount };
+static const uint8_t weights[OCount] = { 10, 5, 5, 8, 8, 12, 9, 5, 5, 2, 2, 4, 5, 8, 3, 5, 2, 2, 3, 2, 3, 2, 4, 3, 5, 5 };
 
 static void teardown(void)
 {
@@ -1099,10 +1219,12 @@ void vf_case(uint64_t idx, vf_rng *r)
 		case OLocate: case ONext: case OFind: case OPos: done = op_lookup(r, op - OLocate); break;
 		case OTraverse: done = op_traverse(r); break;
 		case OParse: done = op_parse(r); break;
+		case OParseF: done = op_parse_file(r); break;
+		case OConcat: done = op_concat(r); break;
 		}
 		if (!done) continue;
 		check_all(cur_op);
-		if (op < OLocate || op == OParse) mut++;
+		if (op < OLocate || op >= OParse) mut++;
 		if (done == 2) deep_ops++;
 		if (dl + 24 < sizeof(desc)) dl += (size_t) snprintf(desc + dl, sizeof(desc) - dl, "%s ", cur_op);
 		vf_max("max:population", (uint64_t) alive_count());
